@@ -418,8 +418,9 @@ def allsky_scene(draw, theta_max, edges, ncat, need_z=()):
     """catalogs spread over the whole sphere on 2-6 far-apart centres (patch radii of 90 degrees
     and more): per catalog one object next to every centre plus objects anywhere, most of them
     with a companion within the largest scale; same layout as scene_case's result"""
-    sphere_point = st.tuples(floats(0.0, 2 * math.pi - 1e-9), floats(-1.0, 1.0).map(math.asin))
-    layout = draw(st.sampled_from(["poles", "poles", "random"]))
+    # (never exactly on the equator, which is the line equidistant from polar centres)
+    sphere_point = st.tuples(floats(0.0, 2 * math.pi - 1e-9), st.tuples(st.sampled_from([1.0, -1.0]), floats(1e-3, 1.0)).map(lambda t: math.asin(t[0] * t[1])))
+    layout = draw(st.sampled_from(["poles", "poles", "poles", "random"]))
     if layout == "poles":
         centers = [(0.0, math.pi / 2), (0.0, -math.pi / 2)]
     else:
@@ -448,7 +449,7 @@ def allsky_scene(draw, theta_max, edges, ncat, need_z=()):
         pts = [offset(cen, 0.01, draw(floats(0.0, 2 * math.pi))) for cen in centers]
         for _ in range(draw(st.integers(2, 10))):
             # anywhere, or next to the equator (for polar centres: the patch boundary) within the largest scale
-            p = draw(st.one_of(sphere_point, st.tuples(floats(0.0, 2 * math.pi - 1e-9), floats(-0.6, 0.6).map(lambda f: f * theta_max))))
+            p = draw(st.one_of(sphere_point, st.tuples(floats(0.0, 2 * math.pi - 1e-9), st.tuples(st.sampled_from([1.0, -1.0]), floats(0.02, 0.6)).map(lambda t: t[0] * t[1] * theta_max))))
             pts.append(p)
             if draw(st.booleans()):
                 pts.append(offset(p, theta_max * draw(floats(0.05, 1.3)), draw(floats(0.0, 2 * math.pi))))
